@@ -23,9 +23,17 @@ use serde_json::Value;
 use std::sync::Mutex;
 
 static LAST_PANIC: Mutex<String> = Mutex::new(String::new());
+static PANICS: Mutex<Vec<(String, String)>> = Mutex::new(Vec::new());
 
 pub fn last_panic_location() -> String {
     LAST_PANIC.lock().unwrap().clone()
+}
+
+/// Location of the most recent panic whose message equals `msg` (panics on pool threads are
+/// re-raised on the API thread without passing through the hook again).
+pub fn panic_location_for(msg: &str) -> String {
+    let g = PANICS.lock().unwrap();
+    g.iter().rev().find(|(m, _)| m == msg).map(|(_, l)| l.clone()).unwrap_or_else(|| LAST_PANIC.lock().unwrap().clone())
 }
 
 /// Extra, property-specific evidence computed by the coordinator itself.
@@ -63,6 +71,20 @@ fn main() {
             .map(|l| format!("{}:{}", l.file().rsplit("/repo/").next().unwrap_or(l.file()), l.line()))
             .unwrap_or_else(|| "?".into());
         *LAST_PANIC.lock().unwrap() = loc.clone();
+        {
+            let msg = if let Some(s) = info.payload().downcast_ref::<&str>() {
+                s.to_string()
+            } else if let Some(s) = info.payload().downcast_ref::<String>() {
+                s.clone()
+            } else {
+                String::new()
+            };
+            let mut g = PANICS.lock().unwrap();
+            if g.len() > 64 {
+                g.remove(0);
+            }
+            g.push((msg, loc.clone()));
+        }
         if std::env::var("MC_VERBOSE").is_ok() {
             eprintln!("panic: {info}");
         }
@@ -126,6 +148,19 @@ fn main() {
             let img = util::DirImage::snapshot(std::path::Path::new(&args[2])).expect("snapshot");
             let meta = imgdec::decode_meta(&img);
             println!("{:?}", meta);
+            if let Ok(meta) = &meta {
+                if let Ok(ht) = imgdec::HtImage::new(&img, meta) {
+                    for b in 0..ht.buckets {
+                        let m = ht.meta[b as usize];
+                        if m != 0 {
+                            let page = ht.bucket_page(b);
+                            let mut label = [0u8; 32];
+                            label.copy_from_slice(&page[4096 - 32..]);
+                            println!("bucket {b}: meta {m:#04x} label-path {:?} elided {:#x}", imgdec::page_path_from_bytes(&label), u64::from_le_bytes(page[4096 - 40..4096 - 32].try_into().unwrap()));
+                        }
+                    }
+                }
+            }
             let opts = imgdec::CheckOpts { structure: true, kv_equals_model: false, merkle: true, leaks: true };
             match imgdec::check_image::<driver::B3>(&img, &Default::default(), &opts) {
                 Ok(r) => { println!("{:#?}", r); 0 }
